@@ -1,7 +1,7 @@
 """V lower_type_gate: LoweringContext::lower_type (verbatim, ~290 lines) accepts exactly the documented input-position shapes."""
 import os
 import re
-from rsrc import Src, Piece, rule_panics, rule_format_msgs, match_close, code_positions
+from rsrc import Src, Piece, rule_panics, rule_format_msgs, match_close, code_positions, unfold_maps_after
 from verus_engine import VerusFile, CANARY
 from common import Undecided, VERIF, read
 import vhelp
@@ -18,7 +18,7 @@ TYPES = "core/src/ast/types.rs"
 LT_CONTRACT = f"""        ensures {CANARY}
             res.is_ok() == allowed_in(&old(self).lookup_id, *ty, *in_path, *old(self).env, in_struct),
             final(self).env == old(self).env, final(self).lookup_id == old(self).lookup_id,
-            final(self).attr_validator == old(self).attr_validator,
+            final(self).attr_validator == old(self).attr_validator, final(self).cfg == old(self).cfg,
             final(self).errors.errors@.len() >= old(self).errors.errors@.len(),
             res.is_err() ==> final(self).errors.errors@.len() > old(self).errors.errors@.len(),
             // C10: an optional reference to an opaque is an optional opaque pointer, not a DiplomatOption
@@ -31,7 +31,7 @@ LT_CONTRACT = f"""        ensures {CANARY}
 LOOP_INV = """                    invariant
                         *ty == ast::TypeName::Function(*input_types, *out_type, *_mutability),
                         self.env == old(self).env, self.lookup_id == old(self).lookup_id,
-                        self.attr_validator == old(self).attr_validator,
+                        self.attr_validator == old(self).attr_validator, self.cfg == old(self).cfg,
                         self.errors.errors@.len() >= old(self).errors.errors@.len(),
                         !old(self).attr_validator.attrs_supported_spec().callbacks ==> self.errors.errors@.len() > old(self).errors.errors@.len(),
                         forall|i: int| 0 <= i < it.index@ ==> cb_param_ok(*#[trigger] input_types@[i], *in_path, *old(self).env),"""
@@ -63,6 +63,132 @@ pub open spec fn unsupported_feature_used(t: ast::TypeName, s: BackendAttrSuppor
     }
 }
 """
+
+
+FRAME = """            final(self).env == old(self).env, final(self).lookup_id == old(self).lookup_id,
+            final(self).attr_validator == old(self).attr_validator, final(self).cfg == old(self).cfg,
+            final(self).errors.errors@.len() >= old(self).errors.errors@.len(),
+            res.is_err() ==> final(self).errors.errors@.len() > old(self).errors.errors@.len(),"""
+
+LOT_CONTRACT = f"""        ensures {CANARY}
+            res.is_ok() == allowed_out(*ty, *in_path, *old(self).env, in_struct, in_result_option),
+{FRAME}
+            // C10: optional pointers stay (nullable) pointers, every other Option is a DiplomatOption
+            res.is_ok() && (*ty is Option) ==> (opt_is_ptr(*ty) ==> out_opaque_optional(res) == Some(true)) && (!opt_is_ptr(*ty) ==> res.unwrap() is DiplomatOption),
+            res.is_ok() && ((*ty is Reference) || (*ty is Box)) ==> out_opaque_optional(res) == Some(false),
+            // C03: Box<Opaque> is handed out owned, &Opaque borrowed
+            res.is_ok() && (*ty is Box || opt_inner_is_box(*ty)) ==> out_opaque_owned(res) == Some(true),
+            res.is_ok() && (*ty is Reference || opt_is_ref(*ty)) ==> out_opaque_owned(res) == Some(false),
+        decreases ty,"""
+
+LSP_CONTRACT = f"""        ensures {CANARY}
+            res.is_ok() == self_ok(&old(self).lookup_id, *self_param, *in_path, *old(self).env),
+{FRAME}
+            res.is_ok() ==> match ast::spec_resolve(self_param.path_type, *in_path, *old(self).env) {{
+                ast::CustomType::Struct(_) => res.unwrap().0.ty is Struct,
+                ast::CustomType::Opaque(_) => res.unwrap().0.ty is Opaque,
+                ast::CustomType::Enum(_) => res.unwrap().0.ty is Enum,
+            }},"""
+
+LCP_CONTRACT = f"""        ensures {CANARY}
+            res.is_ok() == cb_param_ok(*ty, *in_path, *old(self).env),
+{FRAME}"""
+
+LRT_CONTRACT = f"""        ensures {CANARY}
+            res.is_ok() == return_ok(rt_view(return_type), *in_path, *old(self).env),
+{FRAME}
+            // C10: Result only at top level -> Fallible; Option<pointer> -> Infallible (nullable pointer); other Option -> Nullable;
+            // a unit success arm is Write exactly when the method takes a DiplomatWrite
+            res.is_ok() ==> return_shape(rt_view(return_type), takes_write, res.unwrap().0),"""
+
+OUT_SPECS = r"""
+pub open spec fn opt_is_ptr(t: ast::TypeName) -> bool {
+    match t { ast::TypeName::Option(inner, _) => (*inner is Reference) || (*inner is Box), _ => false }
+}
+pub open spec fn opt_inner_is_box(t: ast::TypeName) -> bool {
+    match t { ast::TypeName::Option(inner, _) => *inner is Box, _ => false }
+}
+pub open spec fn out_opaque_optional(r: Result<OutType, ()>) -> Option<bool> {
+    match r { Ok(Type::Opaque(p)) => Some(p.optional.0), _ => None }
+}
+pub open spec fn out_opaque_owned(r: Result<OutType, ()>) -> Option<bool> {
+    match r { Ok(Type::Opaque(p)) => Some(p.owner is Own), _ => None }
+}
+pub open spec fn rt_view(rt: Option<&ast::TypeName>) -> Option<ast::TypeName> {
+    match rt { Some(t) => Some(*t), None => None }
+}
+pub open spec fn wu(takes_write: bool) -> SuccessType { if takes_write { SuccessType::Write } else { SuccessType::Unit } }
+pub open spec fn return_shape(rt: Option<ast::TypeName>, takes_write: bool, r: ReturnType) -> bool {
+    match rt {
+        None => r == ReturnType::Infallible(wu(takes_write)),
+        Some(ast::TypeName::Unit) => r == ReturnType::Infallible(wu(takes_write)),
+        Some(ast::TypeName::Result(ok, err, _)) => (r is Fallible)
+            && ((*ok is Unit) ==> r->Fallible_0 == wu(takes_write)) && (!(*ok is Unit) ==> r->Fallible_0 is OutType)
+            && ((*err is Unit) == (r->Fallible_1 is None)),
+        Some(ast::TypeName::Option(v, _)) =>
+            if (*v is Box) || (*v is Reference) { (r is Infallible) && (r->Infallible_0 is OutType) }
+            else { (r is Nullable) && ((*v is Unit) ==> r->Nullable_0 == wu(takes_write)) && (!(*v is Unit) ==> r->Nullable_0 is OutType) },
+        Some(_) => (r is Infallible) && (r->Infallible_0 is OutType),
+    }
+}
+"""
+
+
+def e10_result_maps(text):
+    """E10/E14: `self.lower_out_type(..).map(F).map(G)` and the trailing `.map(|r_ty| ..)` unfolded to matches."""
+    pairs = []
+    # inner chains
+    while True:
+        hit = None
+        for m in re.finditer(r"self\s*\.lower_out_type\(", text):
+            o = m.end() - 1
+            c = match_close(text, o)
+            r = unfold_maps_after(text, m.start(), c + 1, "Result")
+            if r:
+                hit = r
+                break
+        if not hit:
+            break
+        text, b, a = hit
+        pairs.append((b, a))
+    return text, pairs
+
+
+def e10_trailing_map(piece_item, src):
+    """the function's tail expression `match .. { .. }.map(|r_ty| ..)`: receiver = the match expression."""
+    def f(text):
+        # last top-level `.map(` in the body: find the final "}\n        .map(" pattern
+        ms = list(re.finditer(r"\}\s*\.map\(", text))
+        if not ms:
+            raise Undecided("edit-mismatch", "E10: trailing .map on the match expression not found")
+        m = ms[-1]
+        recv_end = m.start() + 1
+        # receiver start: the `match` keyword that opens this brace
+        # walk back: find matching open brace of the `}` at m.start()
+        depth = 0
+        i = m.start()
+        # simple backwards brace matching (no braces in strings after E6)
+        while i >= 0:
+            ch = text[i]
+            if ch == "}":
+                depth += 1
+            elif ch == "{":
+                depth -= 1
+                if depth == 0:
+                    break
+            i -= 1
+        if i < 0:
+            raise Undecided("edit-mismatch", "E10: cannot find the start of the tail match")
+        ms2 = list(re.finditer(r"\bmatch\b", text[:i]))
+        if not ms2:
+            raise Undecided("edit-mismatch", "E10: cannot find the tail match keyword")
+        recv_start = ms2[-1].start()
+        r = unfold_maps_after(text, recv_start, recv_end, "Result")
+        if not r:
+            raise Undecided("edit-mismatch", "E10: no trailing map")
+        t2, b, a = r
+        return t2, [(b[-120:], a[-200:])]
+    return f
 
 
 def e6_messages(text):
@@ -140,6 +266,7 @@ def build(tier):
     prelude = read(os.path.join(VERIF, "units/prelude/lower_type_gate.rs"))
     a, rest = prelude.split("/*@TOP_ENUMS@*/")
     b, c = rest.split("/*@AST_TYPES@*/")
+    c0, c = c.split("/*@AST_SELFPARAM@*/")
     vf.add(vhelp.HEADER)
     vf.add(a)
     vhelp.typedef(vf, types, "Mutability", "enum", derive=vhelp.FIELDLESS_DERIVE)
@@ -157,10 +284,14 @@ def build(tier):
     p.contract("        ensures r == (*self is SelfType),", ret_name="r")
     vf.add_piece(p)
     vf.add("    }\n")
+    vf.add(c0)
+    methods = Src("core/src/ast/methods.rs")
+    vhelp.typedef(vf, methods, "SelfParam", "struct")
     # splice extra specs + the function under proof after the prelude's `impl LoweringContext {` opening
     head, tail = c.rsplit("impl<'ast, V: AttributeValidator> LoweringContext<'ast, V> {", 1)
     vf.add(head)
     vf.add(EXTRA_SPECS)
+    vf.add(OUT_SPECS)
     vf.add("impl<'ast, V: AttributeValidator> LoweringContext<'ast, V> {" + tail)
     it = src.item("impl LoweringContext<'ast>::lower_type", "fn")
     p = Piece(src, it)
@@ -170,12 +301,44 @@ def build(tier):
     p.loop_body_prefix(0, LOOP_HINT)
     common_body_edits(p)
     vf.add_piece(p, expected="lower_type")
+
+    it = src.item("impl LoweringContext<'ast>::lower_out_type", "fn")
+    p = Piece(src, it)
+    p.expect_loops(0)
+    p.contract(LOT_CONTRACT, ret_name="res")
+    common_body_edits(p)
+    vf.add_piece(p, expected="lower_out_type")
+
+    it = src.item("impl LoweringContext<'ast>::lower_callback_param", "fn")
+    p = Piece(src, it)
+    p.contract(LCP_CONTRACT, ret_name="res")
+    p.sub("E7", r"ty\s*\.lifetimes\(\)\s*\.any\(\|lt\| matches!\(lt, super::MaybeStatic::NonStatic\(\.\.\)\)\)", "__type_has_nonstatic_lifetime(&ty)", count=1,
+          why="iterator adapter abstracted: only decides whether an extra error is pushed")
+    common_body_edits(p)
+    vf.add_piece(p, expected="lower_callback_param")
+
+    it = src.item("impl LoweringContext<'ast>::lower_return_type", "fn")
+    p = Piece(src, it)
+    p.contract(LRT_CONTRACT, ret_name="res")
+    (a0, a1) = it["params"][3]
+    if not src.slice(a0, a1).startswith("mut return_ltl:"):
+        raise Undecided("anchor-lost", "lower_return_type: parameter `mut return_ltl` not found")
+    common_body_edits(p)
+    p.fn("E10", e10_result_maps, why="Result::map unfolded to a match (closure/constructor results must be visible to the proof)")
+    p.fn("E10", e10_trailing_map(it, src), why="Result::map on the tail match unfolded")
+    vf.add_piece(p, expected="lower_return_type")
+
+    it = src.item("impl LoweringContext<'ast>::lower_self_param", "fn")
+    p = Piece(src, it)
+    p.contract(LSP_CONTRACT, ret_name="res")
+    common_body_edits(p)
+    vf.add_piece(p, expected="lower_self_param")
     vf.add("}\n")
     vf.add(vhelp.FOOTER)
     return vf
 
 
-CANARY_FUNCTIONS = ["lower_type"]
+CANARY_FUNCTIONS = ["lower_type", "lower_out_type", "lower_callback_param", "lower_return_type", "lower_self_param"]
 ASSUMPTIONS = [
     "collaborator types (StructPath, OpaquePath, Type<P>, Slice, Callback, TyPosition, LifetimeLowerer, BackendAttrSupport, ErrorStore) are re-declared in the unit prelude with the fields lower_type uses; ast::TypeName/PathType/Lifetime/PrimitiveType/... are extracted verbatim",
     "PathType::resolve is abstract: uninterpreted spec_resolve(path, in_path, env) (HashMap-based Env lookup not verified)",
